@@ -15,6 +15,16 @@ open P2.OrdNext
 /-- The code under verification is the repaired variant (re-extracted from `processor.rs` on every run). -/
 theorem c12_code_fetches_in_tx : P2.Extracted.C12.nextFetchesInTx = true := by decide
 
+/-- **Source tie for the statement order the model's program counters encode** (re-extracted from
+    `processor.rs` on every run): the first statement of `next` after acquiring `inner` hands out the parked
+    item (`take_in_flight`) *before* `begin`; the fetched operation is parked (`park_in_flight`) textually
+    before `commit(permit).await`; after the commit the item is returned from the slot; `process` ends with
+    `notify_one` (a stored permit, not `notify_waiters`). -/
+theorem c12_extracted_order :
+    (P2.Extracted.C12.firstAfterLock, P2.Extracted.C12.parkedBeforeCommit, P2.Extracted.C12.returnsFromSlot,
+     P2.Extracted.C12.processNotifies)
+    = ("take_in_flight", "park_in_flight", "take_in_flight", "notify_one") := by decide
+
 def b2n (p : Prop) [Decidable p] : Nat := if p then 1 else 0
 
 /-- How often `x` is accounted for: returned, parked, queued. -/
